@@ -463,6 +463,8 @@ func runC16(c *Ctx) {
 	// R16 (shared with C17.R1): "with the attributes the server reported" — the mode word of an entry is converted by
 	// toFileMode, whose table is checked there
 	c.withOnly("R1", "R16", func() { runC17(c) })
+	// R17 (shared with C11.R1): an OPENDIR handle issued twice makes a running listing continue on another directory's lister
+	c.withOnly("R1", "R17", func() { runC11(c) })
 	// R14 (shared with C05.R3/C10.R5): a lister's end of directory — io.EOF, bare or wrapped the way filelist itself
 	// accepts it — is answered with SSH_FX_EOF, which is what ends the client's loop successfully
 	c.withRule("R14", func() { checkErrorShapes(c, "R3") })
